@@ -5,7 +5,8 @@ use serde_json::{json, Value};
 use std::collections::HashMap;
 use std::io::{BufRead, Write};
 use taskchampion::server::verif::{
-    cloud_server, init_store, set_next_draw, Fault, Gate, SharedStore,
+    cloud_server, cloud_server_new, empty_store, init_store, set_next_draw, Fault, Gate,
+    SharedStore,
 };
 use taskchampion::server::{AddVersionResult, GetVersionResult, Server, SnapshotUrgency};
 use taskchampion::Uuid;
@@ -449,7 +450,204 @@ async fn run_behaviour(b: &Value) -> Vec<Value> {
     w.lines
 }
 
+/// The salt race: clients are created concurrently through `CloudServer::new` on an entirely
+/// empty store, their requests on the "salt" object granted one at a time as the schedule
+/// says; afterwards one client adds a version and every other client must be able to open it.
+async fn run_salt_behaviour(b: &Value) -> Vec<Value> {
+    let names: Vec<String> = b["clients"]
+        .as_array()
+        .unwrap()
+        .iter()
+        .map(|x| x.as_str().unwrap().to_string())
+        .collect();
+    let store = empty_store();
+    let (tx, mut rx) = unbounded_channel::<(usize, Msg)>();
+    let mut lines = vec![json!({"a":"Reset","id":b["id"].clone()})];
+    let mut grants: Vec<Option<Tx<Fault>>> = vec![None; names.len()];
+    let mut pending: Vec<Option<Value>> = vec![None; names.len()];
+    let mut backs: Vec<Option<oneshot::Receiver<Option<Box<dyn Server>>>>> = Vec::new();
+    for _ in 0..names.len() {
+        backs.push(None);
+    }
+    let mut servers: Vec<Option<Box<dyn Server>>> = Vec::new();
+    for _ in 0..names.len() {
+        servers.push(None);
+    }
+    let mut running = vec![false; names.len()];
+
+    // wait for client i's next message, folding replies into the request event
+    async fn pump(
+        i: usize,
+        rx: &mut Rx<(usize, Msg)>,
+        lines: &mut Vec<Value>,
+        pending: &mut [Option<Value>],
+        running: &mut [bool],
+        backs: &mut [Option<oneshot::Receiver<Option<Box<dyn Server>>>>],
+        servers: &mut [Option<Box<dyn Server>>],
+        names: &[String],
+        mut ev: Option<Value>,
+    ) {
+        loop {
+            let (who, m) = rx.recv().await.expect("msg");
+            assert_eq!(who, i);
+            match m {
+                Msg::Reply(res) => {
+                    if let Some(mut e) = ev.take() {
+                        let o = e.as_object_mut().unwrap();
+                        if let Some(f) = res.get("found") {
+                            o.insert("found".into(), f.clone());
+                        }
+                        if let Some(sw) = res.get("swapped") {
+                            o.insert("swapped".into(), sw.clone());
+                        }
+                        o.insert("fault".into(), json!("none"));
+                        lines.push(e);
+                    }
+                }
+                Msg::Request(r) => {
+                    pending[i] = Some(r);
+                    return;
+                }
+                Msg::Finished(ret) => {
+                    let srv = backs[i].take().unwrap().await.unwrap();
+                    let ok = srv.is_some();
+                    servers[i] = srv;
+                    running[i] = false;
+                    pending[i] = None;
+                    lines.push(json!({"a":"Opened","c":names[i],"ok":ok,"msg":ret}));
+                    return;
+                }
+            }
+        }
+    }
+
+    for s in b["steps"].as_array().unwrap() {
+        let i = names.iter().position(|n| n == s["c"].as_str().unwrap()).unwrap();
+        match s["a"].as_str().unwrap() {
+            "Open" => {
+                let (gtx, grx) = unbounded_channel();
+                grants[i] = Some(gtx);
+                let gate = Box::new(ChanGate { idx: i, tx: tx.clone(), grant: grx });
+                let st = store.clone();
+                let txc = tx.clone();
+                let (btx, brx) = oneshot::channel();
+                backs[i] = Some(brx);
+                running[i] = true;
+                lines.push(json!({"a":"Call","c":names[i],"op":"open","ver":0,"body":"-"}));
+                tokio::task::spawn_local(async move {
+                    match cloud_server_new(st, gate, i, 100_000, b"verif-secret").await {
+                        Ok(srv) => {
+                            txc.send((i, Msg::Finished(json!("ok")))).ok();
+                            let _ = btx.send(Some(srv));
+                        }
+                        Err(e) => {
+                            txc.send((i, Msg::Finished(json!(format!("{e:#}"))))).ok();
+                            let _ = btx.send(None);
+                        }
+                    }
+                });
+                pump(i, &mut rx, &mut lines, &mut pending, &mut running, &mut backs, &mut servers, &names, None).await;
+            }
+            _ => {
+                if !running[i] {
+                    continue;
+                }
+                let Some(req) = pending[i].take() else { continue };
+                let op = req["op"].as_str().unwrap().to_string();
+                let name = req["name"].as_str().unwrap_or("").to_string();
+                let ev = json!({"a":"Req","c":names[i],"op":op,"name":[name, 0, 0]});
+                grants[i].as_ref().unwrap().send(Fault::None).unwrap();
+                pump(i, &mut rx, &mut lines, &mut pending, &mut running, &mut backs, &mut servers, &names, Some(ev)).await;
+            }
+        }
+    }
+    // let every creation finish
+    for i in 0..names.len() {
+        let mut guard = 0;
+        while running[i] {
+            if let Some(req) = pending[i].take() {
+                let op = req["op"].as_str().unwrap().to_string();
+                let name = req["name"].as_str().unwrap_or("").to_string();
+                let ev = json!({"a":"Req","c":names[i],"op":op,"name":[name, 0, 0]});
+                grants[i].as_ref().unwrap().send(Fault::None).unwrap();
+                pump(i, &mut rx, &mut lines, &mut pending, &mut running, &mut backs, &mut servers, &names, Some(ev)).await;
+            }
+            guard += 1;
+            assert!(guard < 1000);
+        }
+    }
+    // agreement: the first client adds a version, every other one reads it back (ungated from
+    // here on: grant every request as it comes)
+    let mut ok = servers.iter().all(|s| s.is_some());
+    let mut msgs = vec![];
+    if ok {
+        let body = b"{\"operations\":[]}".to_vec();
+        let mut s0 = servers[0].take().unwrap();
+        let g0 = grants[0].clone().unwrap();
+        let txf = tx.clone();
+        let h = tokio::task::spawn_local(async move {
+            let r = s0.add_version(Uuid::nil(), body).await;
+            txf.send((usize::MAX, Msg::Finished(json!(null)))).ok();
+            (r.map(|x| format!("{:?}", x.0)).map_err(|e| format!("{e:#}")), s0)
+        });
+        // serve gates until the task reports completion
+        loop {
+            let (who, m) = rx.recv().await.expect("msg");
+            match m {
+                Msg::Request(_) => {
+                    if who == 0 {
+                        g0.send(Fault::None).unwrap();
+                    }
+                }
+                Msg::Finished(_) => break,
+                Msg::Reply(_) => {}
+            }
+        }
+        let (r0, _s0) = h.await.unwrap();
+        if let Err(e) = &r0 {
+            ok = false;
+            msgs.push(format!("add_version: {e}"));
+        }
+        for i in 1..names.len() {
+            let mut si = servers[i].take().unwrap();
+            let gi = grants[i].clone().unwrap();
+            let txf = tx.clone();
+            let h = tokio::task::spawn_local(async move {
+                let r = si.get_child_version(Uuid::nil()).await;
+                txf.send((usize::MAX, Msg::Finished(json!(null)))).ok();
+                r.map(|x| matches!(x, GetVersionResult::Version { .. })).map_err(|e| format!("{e:#}"))
+            });
+            loop {
+                let (who, m) = rx.recv().await.expect("msg");
+                match m {
+                    Msg::Request(_) => {
+                        if who == i {
+                            gi.send(Fault::None).unwrap();
+                        }
+                    }
+                    Msg::Finished(_) => break,
+                    Msg::Reply(_) => {}
+                }
+            }
+            match h.await.unwrap() {
+                Ok(true) => {}
+                Ok(false) => {
+                    ok = false;
+                    msgs.push(format!("{}: version not found", names[i]));
+                }
+                Err(e) => {
+                    ok = false;
+                    msgs.push(format!("{}: {e}", names[i]));
+                }
+            }
+        }
+    }
+    lines.push(json!({"a":"Agree","ok":ok,"msgs":msgs}));
+    lines
+}
+
 pub fn main(args: &[String]) {
+    let salt_mode = args.iter().any(|a| a == "--salt");
     let inp = crate::arg(args, "--in").expect("--in");
     let out = crate::arg(args, "--out").expect("--out");
     let f = std::io::BufReader::new(std::fs::File::open(inp).unwrap());
@@ -461,7 +659,11 @@ pub fn main(args: &[String]) {
             continue;
         }
         let b: Value = serde_json::from_str(&line).expect("stimulus json");
-        let lines = crate::local_block_on(run_behaviour(&b));
+        let lines = if salt_mode {
+            crate::local_block_on(run_salt_behaviour(&b))
+        } else {
+            crate::local_block_on(run_behaviour(&b))
+        };
         for l in lines {
             writeln!(o, "{}", serde_json::to_string(&l).unwrap()).unwrap();
         }
